@@ -30,6 +30,11 @@ struct Deliv { int client; long long tag; };
 static std::vector<Deliv> g_deliveries;  // dispatcher thread only
 static Comp* g_comp = nullptr;
 static long long g_judged = 0, g_unspecified = 0;
+// set by a client thread when its release call has returned, cleared before it claims again: an
+// out-event handed to that client while the flag is up arrived after it had let go of the claim
+static std::atomic<bool> g_release_returned[64];
+static std::atomic<long long> g_frees{0};        // releases the component has handled
+static std::atomic<int> g_clients_finished{0};
 static unsigned long long g_sleep_seed = 0;
 static thread_local std::mt19937_64* t_rng = nullptr;
 
@@ -119,7 +124,7 @@ int main(int argc, char** argv) {
     };
     g_comp->api.in.Free = [](Id who) {
         if (!vmon::in_dispatcher) violation("in-event-outside-dispatcher", -1, static_cast<int>(who.id), 0);
-        if (g_owner.load() == who.id) { g_active = -1; g_owner = -1; }
+        if (g_owner.load() == who.id) { g_active = -1; g_owner = -1; ++g_frees; }
         else violation("harness-client-released-without-claim", g_owner.load(), static_cast<int>(who.id), 0);
     };
     g_comp->ctl.in.Ping = [] {};
@@ -138,6 +143,8 @@ int main(int argc, char** argv) {
         const std::string ident = k < 8 ? kClientNames[k] : "c" + std::to_string(k);
         Port& p = shell.ProvidesMultiClientApi(ident).port;
         p.out.Done = [k](Id t) { g_deliveries.push_back({k, t.id});
+                                 if (g_release_returned[k].load())
+                                     violation("out-event-delivered-after-the-clients-release-had-returned", -1, k, 1);
                                  query_clients("no-client-identifiers-seen-from-out-event-handler"); };
         ports.push_back(&p);
     }
@@ -147,6 +154,53 @@ int main(int argc, char** argv) {
 
     std::atomic<long long> completed_cycles{0}, gave_up{0}, denied{0};
     std::vector<std::thread> threads;
+#ifndef VSCHED
+    // a process seldom holds one shell only: two more, unrelated shells of the same kind, each
+    // with a dispatcher, a component and two clients of its own, run their cycles next to the
+    // first.  Their components grant every claim (the later claimant overrules the earlier
+    // one), so every path of the selector is taken in each of them.  Nothing of it is judged
+    // functionally - what unrelated shells may not do is touch common state.
+    struct Side {
+        dzn::locator loc; dzn::pump pump; dzn::runtime rt; ::Dzn::ILog log;
+        std::unique_ptr<Shell> shell; Comp* comp = nullptr; std::vector<Port*> ports;
+    };
+    static Side sides[2];
+    static std::atomic<long long> side_done{0};
+    for (int n = 0; n < 2; ++n) {
+        Side& sd = sides[n];
+        sd.loc.set(sd.pump).set(sd.rt);
+        sd.log.Info = [](const std::string& m) { perturb(m.c_str()); };
+        sd.log.Warning = [](const std::string&) {};
+        sd.log.Error = [](const std::string&) {};
+        sd.shell.reset(new Shell(sd.loc, sd.log, n == 0 ? "side0" : "side1"));
+        sd.comp = static_cast<Comp*>(vmon::registry()["Arb.Hub"]);
+        Comp* comp = sd.comp;
+        comp->api.in.Acquire = [](Id) { return Port::Result::Granted; };
+        comp->api.in.Free = [](Id) {};
+        comp->ctl.in.Ping = [] {};
+        comp->api.in.Use = [comp](Id) { Id t; t.id = 1; comp->api.out.Done(t); };
+        for (int k = 0; k < 2; ++k) {
+            Port& p = sd.shell->ProvidesMultiClientApi(
+                std::string("a-client-of-another-shell-with-a-long-name-") + std::to_string(k)).port;
+            p.out.Done = [](Id) { ++side_done; };
+            sd.ports.push_back(&p);
+        }
+        sd.shell->FinalConstruct();
+        for (int k = 0; k < 2; ++k) {
+            threads.emplace_back([&sd, k, cycles, n] {
+                vmon::thread_tag = 200 + 10 * n + k;
+                Port& p = *sd.ports[static_cast<size_t>(k)];
+                Id me; me.id = k;
+                for (int c = 0; c < cycles; ++c) {
+                    (void)p.in.Acquire(me);
+                    p.in.Use(me);
+                    perturb("side");
+                    p.in.Free(me);
+                }
+            });
+        }
+    }
+#endif
     for (int k = 0; k < clients; ++k) {
         threads.emplace_back([&, k] {
             vmon::thread_tag = k + 1;
@@ -158,6 +212,7 @@ int main(int argc, char** argv) {
             for (int c = 0; c < cycles; ++c) {
                 int tries = 0;
                 bool granted = false;
+                g_release_returned[k] = false;
                 while (!granted) {
                     granted = p.in.Acquire(me) == Port::Result::Granted;
                     if (granted) break;
@@ -176,8 +231,10 @@ int main(int argc, char** argv) {
                     violation("harness-component-granted-twice", k, k, 0);
                 for (int u = 0; u < uses; ++u) p.in.Use(me);
                 p.in.Free(me);
+                g_release_returned[k] = true;
                 ++completed_cycles;
             }
+            ++g_clients_finished;
 #ifdef VSCHED
             vsched::finish();
 #endif
@@ -188,8 +245,20 @@ int main(int argc, char** argv) {
 #ifdef VSCHED
         vsched::attach("env");
 #endif
+        long long seen = 0;
         for (int i = 0; i < env_events; ++i) {
             perturb("env");
+            if (i % 2 == 0) {
+                // a late out-event: raised right after the component has handled a release
+                // (while the releasing client is on its way out), if there still is one to come
+                auto ready = [&] { return g_frees.load() > seen || g_clients_finished.load() >= clients; };
+#ifdef VSCHED
+                vsched::block_until(ready, "env-after-release");
+#else
+                for (int spin = 0; spin < 20000 && !ready(); ++spin) std::this_thread::yield();
+#endif
+                seen = g_frees.load();
+            }
             pump([] { emit_done("env"); });
         }
 #ifdef VSCHED
@@ -202,6 +271,7 @@ int main(int argc, char** argv) {
 #else
     for (auto& t : threads) t.join();
     pump.vmon_quiesce();
+    for (auto& sd : sides) sd.pump.vmon_quiesce();
 #endif
     {
         vmon::J j;
